@@ -96,7 +96,7 @@ pub fn strategy(opts: &SrcOpts) -> BoxedStrategy<Choice> {
       prop::collection::vec(0u8..12, 1..7),
       any::<bool>(),
       prop_oneof![4 => Just(0u8), 6 => 1u8..9],
-      0u8..9,
+      0u8..13,
       any::<Index>(),
     ),
   )
@@ -203,7 +203,13 @@ pub fn interpret(corpus: &Corpus, opts: &SrcOpts, ch: &Choice, st: &mut Stats) -
   let mut rewriters = vec![];
   if ch.with_rewriter && !ctx.kinds.is_empty() {
     let k = ctx.kinds[ch.kind_pick.index(ctx.kinds.len())].clone();
-    rewriters.push(("rw0".to_string(), GRule::Kind(k), "R".to_string()));
+    // the rewriter's fix is a literal or uses a variable of the enclosing rule (single-line capture)
+    let outer = spec.holes.iter().rev().find(|h| !text[h.start..h.end].contains('\n'));
+    let rfix = match (ch.t1_args.2 % 2, outer) {
+      (1, Some(h)) => format!("R[${}]", h.name),
+      _ => "R".to_string(),
+    };
+    rewriters.push(("rw0".to_string(), GRule::Kind(k), rfix));
     transforms.push((
       "RW".into(),
       TK::Rewrite {
@@ -228,10 +234,8 @@ pub fn interpret(corpus: &Corpus, opts: &SrcOpts, ch: &Choice, st: &mut Stats) -
   if let Some(r) = &spec.run {
     names.push(format!("$$${}", r.name));
   }
-  for (n, t) in &transforms {
-    if !matches!(t, TK::Rewrite { .. }) {
-      names.push(format!("${n}"));
-    }
+  for (n, _) in &transforms {
+    names.push(format!("${n}"));
   }
   let lits = ["(", ")", ", ", " ", "\n  ", "é", "x"];
   let mut fix = String::new();
@@ -350,15 +354,42 @@ fn perturb(doc: &mut Doc, ch: &Choice, ctx: &RuleCtx) {
           None,
           "precedes + follows (a later sibling's earlier siblings include the node itself)",
         ),
-        _ => (
+        8 => (
           GRule::Obj(vec![k.clone(), GRule::Has(rel(GRule::Inside(rel(me()))))]),
           None,
           "has + inside (a descendant's ancestors include the node itself)",
+        ),
+        // the cycle closes through a composite key that sits beside a harmless `matches` key
+        // the cycle u0 -> u1 -> u0 closes through a composite key of u0 that sits beside a
+        // harmless `matches: ub` key
+        9 => (GRule::Obj(vec![GRule::Matches("ub".into()), GRule::Not(Box::new(GRule::Matches("u1".into())))]), Some(GRule::Obj(vec![k.clone(), me()])), "not beside a matches key, through a second utility"),
+        10 => (GRule::Obj(vec![GRule::Matches("ub".into()), GRule::All(vec![GRule::Matches("u1".into())])]), Some(GRule::Obj(vec![k.clone(), me()])), "all beside a matches key, through a second utility"),
+        11 => (
+          GRule::Obj(vec![GRule::Matches("ub".into()), GRule::Any(vec![k.clone(), GRule::Matches("u1".into())])]),
+          Some(GRule::Obj(vec![k.clone(), me()])),
+          "any beside a matches key, through a second utility",
+        ),
+        _ => (
+          GRule::Obj(vec![
+            GRule::Matches("ub".into()),
+            GRule::Nth {
+              position: "1".into(),
+              numeric: true,
+              reverse: false,
+              of_rule: Some(Box::new(GRule::Matches("u1".into()))),
+              simple: false,
+            },
+          ]),
+          Some(GRule::Obj(vec![k.clone(), me()])),
+          "nthChild.ofRule beside a matches key, through a second utility",
         ),
       };
       doc.utils = vec![("u0".into(), body)];
       if let Some(o) = other {
         doc.utils.push(("u1".into(), o));
+      }
+      if ch.cyc_op >= 9 {
+        doc.utils.push(("ub".into(), k.clone()));
       }
       doc.extra_matches = Some("u0".into());
       doc.violates = Some(format!("utility u0 requires itself on the same node through {why}"));
@@ -785,6 +816,7 @@ fn check_inner(doc: &Doc, st: &mut Stats) -> CheckResult {
     }
   };
   let mut uses_transformed = false;
+  let mut rewrite_unknown = false;
   for (name, t) in &doc.transforms {
     let sname = t.source().trim_start_matches('$');
     let Some((input, origin)) = value_of(sname, &binds, &multi) else { continue };
@@ -796,7 +828,40 @@ fn check_inner(doc: &Doc, st: &mut Stats) -> CheckResult {
         "upperCase" => input.to_uppercase(),
         _ => capitalize(&input),
       },
-      TK::Rewrite { .. } => continue,
+      TK::Rewrite { source, rewriters, join_by } => {
+        // reference splice of C06 over the captured node, rewriters tried as stand-alone rules
+        let rw = crate::c06::RewriteSpec {
+          source: source.clone(),
+          rewriters: doc
+            .rewriters
+            .iter()
+            .filter(|(id, _, _)| rewriters.contains(id))
+            .map(|(id, rule, fix)| crate::c06::Rewriter {
+              id: id.clone(),
+              rule: rule.clone(),
+              fix: fix.clone(),
+              outer: fix.split_once("[$").map(|(_, r)| (r.trim_end_matches(']').to_string(), String::new())),
+              expand_start: None,
+              expand_end: None,
+            })
+            .collect(),
+          join_by: join_by.clone(),
+        };
+        match crate::c06::reference_rewrite(&doc.lang, src, &rw, &sg, nm.get_env()) {
+          Some((out, fired)) => {
+            if fired {
+              st.label("rewriter_fired");
+            }
+            // already stored de-indented by the reference
+            binds.insert(name.clone(), Bound::Text(out));
+          }
+          None => {
+            st.label("rewrite_reference_unavailable");
+            rewrite_unknown = true;
+          }
+        }
+        continue;
+      }
     };
     let out = match origin {
       Some(s) => deindent(src, s, &out),
@@ -810,6 +875,10 @@ fn check_inner(doc: &Doc, st: &mut Stats) -> CheckResult {
         uses_transformed = true;
       }
     }
+  }
+  if rewrite_unknown && doc.fix.contains("$RW") {
+    st.discard("fix uses a rewrite result the reference cannot compute");
+    return Ok(());
   }
   let exp = o_template(&doc.fix, &binds, &multi, src, spec.node_start);
   let strip = |s: &str| s.split('\n').map(|l| l.trim_start_matches(' ')).collect::<Vec<_>>().join("\n");
